@@ -49,6 +49,8 @@ structure PW where
   acts  : List WAct := []
   stack : List (Bytes × Bool) := []
   headerCount : Nat := 0
+  /-- msgWriter.rawPartHeaders: set for the S/MIME signing pre-render -/
+  rawPartHeaders : Bool := false
 deriving Repr
 
 def PW.depth (p : PW) : Nat := p.stack.length
@@ -63,6 +65,12 @@ def PW.header (p : PW) (count : Bool) (key : Bytes) (values : List Bytes) : PW :
     -- writeHeader issues two writeString calls: the folded buffer, then CRLF
     let bs := Fold.bufferString key values
     { p with acts := p.acts ++ [.w none bs, .w none crlf], headerCount := p.headerCount + (if count then r.2 else 0) }
+
+/-- msgWriter.writePartHeader: headers of a part/file that is not nested in a multipart -/
+def PW.partHeader (p : PW) (key : Bytes) (values : List Bytes) : PW :=
+  if p.rawPartHeaders then
+    values.foldl (fun p v => p.str (key ++ [58, 32] ++ v ++ crlf)) p
+  else p.header false key values
 
 /-- multipart.Writer.CreatePart through msgWriter.newPart -/
 def PW.newPart (p : PW) (pre : Option Bool) (header : HeaderMap) : PW :=
@@ -107,9 +115,9 @@ def PW.writePart (p : PW) (s : MsgState) (part : Part) : PW :=
   let desc := if part.desc.isEmpty then [] else EncodedWord.wordEncode (encoderOf s.encoding) s.charset part.desc
   let p :=
     if p.depth == 0 then
-      let p := if part.desc.isEmpty then p else p.header false hContentDesc [desc]
-      let p := p.header false hCTE [part.enc]
-      let p := p.header false hContentType [contentType]
+      let p := if part.desc.isEmpty then p else p.partHeader hContentDesc [desc]
+      let p := p.partHeader hCTE [part.enc]
+      let p := p.partHeader hContentType [contentType]
       p.str crlf
     else
       let h : HeaderMap := (if part.desc.isEmpty then [] else [(hContentDesc, desc)]) ++
@@ -144,7 +152,7 @@ def PW.addFile (p : PW) (f : FileM) : PW :=
   let encoding := if f.enc.isEmpty then encB64 else f.enc
   let p :=
     if p.depth == 0 then
-      (f.header.foldl (fun p kv => p.header false kv.1 [kv.2]) p).str crlf
+      (f.header.foldl (fun p kv => p.partHeader kv.1 [kv.2]) p).str crlf
     else p.newPart none f.header
   p.body encoding f.prod
 
@@ -167,9 +175,9 @@ def defaultHeaders (s : MsgState) (e : Entropy) : MsgState :=
 def mimeSigned : Bytes := sb "signed; protocol=\"application/pkcs7-signature\"; micalg=sha-256"
 
 /-- msgWriter.writeMsg. `outer` = the S/MIME wrapper is written (hasSMIME ∧ ¬inProgress). -/
-def writeMsg (s : MsgState) (e : Entropy) (outer : Bool) : PW × MsgState :=
+def writeMsg (s : MsgState) (e : Entropy) (outer : Bool) (signing : Bool := false) : PW × MsgState :=
   let s := defaultHeaders s e
-  let p : PW := {}
+  let p : PW := { rawPartHeaders := signing }
   -- writeGenHeader (sorted) and writePreformattedGenHeader (sorted)
   let p := (sortKeys s.gen).foldl (fun p kv => p.header true kv.1 kv.2) p
   let p := (sortKeys s.preform).foldl (fun p kv =>
@@ -237,7 +245,7 @@ structure RenderPlan where
 def renderPlan (s : MsgState) (e : Entropy) : Option RenderPlan :=
   if s.smime then
     let s0 := { s with parts := s.parts.filter (fun p => !p.smime) }
-    let (pre, s1) := writeMsg s0 e false
+    let (pre, s1) := writeMsg s0 e false true
     match skipLines pre.headerCount (planBytes pre.acts) with
     | none => none
     | some octets =>
